@@ -10,7 +10,8 @@ RULE = ("regression corpus (the documents of every finding); exhaustive family: 
         "key, block sequence element, flow mapping value, flow sequence element, nested) x text before the node on its "
         "line (none / ASCII / non-ASCII / TAB) x final newline (yes / no) x position (first / last entry); random "
         "environments (block and flow collections, plain / quoted / multi-line / literal / folded / tagged / anchored "
-        "scalars, interpolations and symbols, builtins, comments, non-ASCII keys and values of 2-, 3- and 4-byte "
+        "scalars, interpolations and symbols (also preceded in the same scalar by literal `$`, `$$`, `$x`, `a$`, non-ASCII "
+        "text and combinations of them, plain and quoted), builtins, comments, non-ASCII keys and values of 2-, 3- and 4-byte "
         "width-1 characters, TABs) with 0-2 imported environments, check and eval mode; erroneous programs (unknown "
         "references, bad builtins, aliases, non-string keys, missing and cyclic imports).  Every document is also "
         "evaluated as a root so that imported expressions are walked.  non-trivial = at least one non-zero range; "
@@ -59,6 +60,8 @@ def scalar(rng, refs, flow=False, depth=0):
     if k < 50:
         body = rng.choice(["x", "it''s", "é ü", "a b c", "${a}", ""])
         return Sc("'" + body + "'", "sq")
+    if k < 68 and rng.chance(1, 3):
+        return dollar_scalar(rng, refs, flow)
     if k < 68:
         r = rng.choice(refs) if refs and not rng.chance(1, 8) else rng.choice(["nope", "zz.y", "a[9]"])
         if rng.chance(1, 4) and refs:
@@ -102,6 +105,37 @@ def scalar(rng, refs, flow=False, depth=0):
     if k < 98 and not getattr(rng, "safe", False):
         return Sc("*nope", "alias", flow_ok=False)
     return Sc(rng.choice(["{}", "[]"]), "empty")
+
+
+DOLLAR_PIECES = ["$", "$$", "$x", "a$", "$5", "é$", "$é", "€$", "$$$", "a$b", "$$x", "x$$", "$ $", "ü"]
+ACCESS_TAILS = ["", "", ".y", "[0]", '["k"]', ".y[1]", '["a b"].z']
+
+
+def dollar_text(rng, refs):
+    """literal text with lone `$`, `$$`, `$x`, `a$` ... pieces BEFORE (and between) interpolations of one scalar"""
+    def ref():
+        r = rng.choice(refs) if refs and not rng.chance(1, 6) else rng.choice(["nobody", "zz"])
+        return "${%s%s}" % (r, rng.choice(ACCESS_TAILS))
+    parts = [rng.choice(DOLLAR_PIECES) for _ in range(1 + rng.below(3))]
+    parts.append(ref())
+    if rng.chance(1, 2):
+        parts += [rng.choice(DOLLAR_PIECES) for _ in range(rng.below(3))]
+        parts.append(ref())
+    if rng.chance(1, 4):
+        parts.append(rng.choice(DOLLAR_PIECES))
+    if parts[0] == "ü" or rng.chance(1, 5):
+        parts.insert(0, rng.choice(["costs", "é", "x"]))
+    return " ".join(parts)
+
+
+def dollar_scalar(rng, refs, flow):
+    t = dollar_text(rng, refs)
+    q = rng.below(6)
+    if flow or q == 0:
+        return Sc('"' + t.replace('"', "'") + '"', "dollar-dq")
+    if q == 1:
+        return Sc("'" + t.replace("'", "") + "'", "dollar-sq")
+    return Sc(t, "dollar-plain", flow_ok=False)
 
 
 def key_text(rng, used):
@@ -250,6 +284,11 @@ REGRESSION = [
     {"envs": {"m": "values:\n  a: {é: x,\tb: c}\n"}},
     # TAB inside a plain scalar before an accessor
     {"envs": {"m": "values:\n  a: 1\n  b: x\t${a}\n"}},
+    # literal `$` before an interpolation in the same scalar (offset accounting of parseInterpolate)
+    {"envs": {"m": "values:\n  price: 5\n  label: costs $5 or ${price}\n"}},
+    {"envs": {"m": "values:\n  p: {q: [1]}\n  é: a$ b$ ${p.q[0]} $ ${p[\"q\"]}\n  s:\n    - $x $$ é$ ${p}"}},
+    {"envs": {"m": "values:\n  label: é$ $5 ${nobody} and $ ${zz.y}\n  q: \"$5 ${label}\"\n  r: '$ ${label}'"}},
+    {"envs": {"m": "imports:\n  - base\nvalues:\n  x: ${label}", "base": "values:\n  label: costs $5 or ${nobody}\n"}},
     # anchored / tagged scalars
     {"envs": {"m": "values:\n  f: &x 1\n  g: &y ${f}\n  h: !!str ${f}\n"}},
     # quoted, folded
@@ -269,11 +308,12 @@ REGRESSION = [
 
 def family(thorough):
     """exhaustive small family: one probe scalar in every place, with every kind of text before it on its line"""
-    forms = ["abc", "héllo", "a𐀀", "€", "two words", "${a}", "x ${a} é", "42", '"q"', "'s'", "!!str t", "&an v"]
+    forms = ["abc", "héllo", "a𐀀", "€", "two words", "${a}", "x ${a} é", "42", '"q"', "'s'", "!!str t", "&an v",
+             "$5 ${a}", "a$ $$ ${a}", "é$ $x ${a.y} $ ${a}", "x$$ ${a}"]
     cases = []
     for f in forms:
         for nl in ("\n", ""):
-            flow_ok = not (f.startswith("${") or f.startswith("x $") or f.startswith("!!") or f.startswith("&"))
+            flow_ok = not ("${" in f or f.startswith("!!") or f.startswith("&"))
             docs = [
                 "values:\n  a: 1\n  k: %s" % f,                       # block value, last entry
                 "values:\n  k: %s\n  a: 1" % f,                       # block value, first entry
@@ -291,7 +331,7 @@ def family(thorough):
                     "values:\n  a: 1\n  m: {x: \"\t\", é: %s}" % f,    # TAB and non-ASCII before
                     "values:\n  a: 1\n  m: {%s: v, w: %s}" % (f, f) if f[0] not in "\"'4" else "values:\n  a: 1\n  m: {k: %s}" % f,
                 ]
-            if f[0] not in "$&!x" and " " not in f:
+            if f[0] not in "$&!x" and " " not in f and "$" not in f:
                 docs.append("values:\n  a: 1\n  %s: v\n  z: {%s: w}" % (f, f))   # as a key
             for d in docs:
                 cases.append({"envs": {"m": d + nl}})
@@ -348,7 +388,12 @@ def line(c, o):
     rs = []
     for r in o["ranges"]:
         b, e = r["b"], r["e"]
-        rs.append("(r %s %s %d %d %d %d %d %d %d)" % (r["what"], C.sx(r["env"]), r["node"], b[0], b[1], b[2], e[0], e[1], e[2]))
+        acc = ""
+        if "key" in r:
+            acc = " (k x%s)" % r["key"]
+        elif "index" in r:
+            acc = " (i %d)" % r["index"]
+        rs.append("(r %s %s %d %d %d %d %d %d %d%s)" % (r["what"], C.sx(r["env"]), r["node"], b[0], b[1], b[2], e[0], e[1], e[2], acc))
     return "(c19 (%s) (%s))" % (" ".join(docs), " ".join(rs))
 
 
